@@ -1,5 +1,6 @@
 /* R-ENDIAN fixture: byte-order typestate of wire fields. */
 #include <stdint.h>
+#include <stddef.h>
 #include <arpa/inet.h>
 
 typedef struct fx_whdr_s { uint16_t id; uint16_t count; uint32_t ttl; } fx_whdr_t;
@@ -17,6 +18,8 @@ static inline void fx_flip_ok(fx_whdr_t *h) { h->count = ntohs(h->count); }
 /* violations */
 static inline void fx_inc_bad(fx_whdr_t *h, uint16_t v) { h->count = (uint16_t)(h->count + htons(v)); }
 static inline void fx_store_bad(fx_whdr_t *h) { h->count = 5; }
-static inline int fx_lt_bad(fx_whdr_t *h, uint32_t lim) { return (h->ttl < lim); }
+static inline int fx_lt_bad(fx_whdr_t *h, size_t lim) { return (h->ttl < lim); }
+static const uint32_t fx_tbl[2] = { 0x80, 0xc0 };
+static inline int fx_lt_tbl_ok(fx_whdr_t *h, int i) { return (h->ttl < fx_tbl[i]); }
 static inline uint16_t fx_local_bad(fx_whdr_t *h) { uint16_t t = h->count; return ((uint16_t)(t + 1)); }
 static inline void fx_double_bad(fx_whdr_t *h, uint16_t v) { uint16_t n = htons(v); h->count = htons(n); }
